@@ -53,7 +53,7 @@ func (c12) Runs(t Tier) int {
 	if t == Thorough {
 		return 6000
 	}
-	return 320
+	return 480
 }
 func (c12) RecordWidths() map[string]int { return nil }
 func (c12) RequiredProbes() []string {
@@ -293,7 +293,7 @@ func (c12) runFile(ts *tape.Set, tier Tier) *Result {
 	// seek mode: the reader is first positioned at a (inside the file) and
 	// then read to the end; blocks that lie wholly before a are not needed
 	a := int64(0)
-	if !useAsBytes && len(fullContent) > 2 && subsetSeed%3 == 0 {
+	if !useAsBytes && len(fullContent) > 2 && subsetSeed%2 == 0 {
 		a = 1 + int64((subsetSeed>>8)%uint64(len(fullContent)-1))
 		res.probe("seek-then-read-under-fault")
 	}
